@@ -18,6 +18,76 @@ Proof. rewrite py_range_0_nat, map_length, seq_length. reflexivity. Qed.
 Lemma colsof_0 R : colsof 0 R = [].
 Proof. reflexivity. Qed.
 
+Lemma lt_len {A} (l : list A) k i : length l = k -> (i < k)%nat -> (i < length l)%nat.
+Proof. intros <- H. exact H. Qed.
+
+Lemma upd_same_val {A} (l : list A) i d x : nth i l d = x -> upd l i x = l.
+Proof. intros <-. apply upd_nth_id. Qed.
+
+Lemma upd2_same R r col : nth col (nth r R []) None = None -> upd2 R r col None = R.
+Proof.
+  intros H. unfold upd2. apply (upd_same_val R r []). symmetry. apply (upd_same_val _ col None). exact H.
+Qed.
+
+Lemma grp_put_none N R g col :
+  nth col (nth (2 * g) R []) None = None -> nth (S col) (nth (2 * g + 1) R []) None = None ->
+  grp_put N R g col None None = R.
+Proof.
+  intros H1 H2. unfold grp_put. rewrite (upd2_same R (2 * g) col H1).
+  destruct (S col <? N)%nat; [apply upd2_same; exact H2|reflexivity].
+Qed.
+
+Lemma grp_put_nocarry N R g col x : nth (S col) (nth (2 * g + 1) R []) None = None ->
+  grp_put N R g col x None = upd2 R (2 * g) col x.
+Proof.
+  intros H. unfold grp_put. destruct (S col <? N)%nat; [|reflexivity].
+  apply upd2_same. unfold upd2 at 1. rewrite nth_upd_other by lia. exact H.
+Qed.
+
+Lemma py_range_3 r : py_range (Z.of_nat r) (Z.of_nat r + 3) = [Z.of_nat r; Z.of_nat (r + 1); Z.of_nat (r + 2)].
+Proof.
+  unfold py_range. replace (Z.of_nat r + 3 - Z.of_nat r) with 3 by lia.
+  change (Z.to_nat 3) with 3%nat. cbn [seq map].
+  replace (Z.of_nat r + Z.of_nat 0) with (Z.of_nat r) by lia.
+  replace (Z.of_nat r + Z.of_nat 1) with (Z.of_nat (r + 1)) by lia.
+  replace (Z.of_nat r + Z.of_nat 2) with (Z.of_nat (r + 2)) by lia. reflexivity.
+Qed.
+
+Lemma len_gt0_cons {A} (x : A) l : (Z.of_nat (length (x :: l)) >? 0) = true.
+Proof. cbn [length]. apply Z.gtb_lt. lia. Qed.
+
+Lemma upd_overflow {A} (l : list A) : forall i x, (length l <= i)%nat -> upd l i x = l.
+Proof.
+  induction l as [|y l IH]; intros [|i] x Hi; cbn [upd length] in *; try reflexivity; try lia. f_equal. apply IH. lia.
+Qed.
+
+Lemma widths_upd2 N R r col x : widths N R -> widths N (upd2 R r col x).
+Proof.
+  intros W. unfold upd2. destruct (Nat.lt_ge_cases r (length R)) as [H|H].
+  - apply widths_upd; [exact W|]. rewrite upd_length. apply (widths_nth _ _ _ W H).
+  - rewrite upd_overflow by exact H. exact W.
+Qed.
+
+(* reading cells of the matrix that is being reduced *)
+Ltac rdc HGR Hcol :=
+  repeat (first [ rewrite py_nth_colsof by exact Hcol
+                | rewrite py_nth_col_of by lia
+                | rewrite good_cell_test by (apply good_nth, goodm_nth; exact HGR)
+                | match goal with E : nth _ (nth _ _ []) None = Some _ |- _ => rewrite E end ];
+          cbn [is_some cell_label]; rs).
+
+(* cn[col + i][2 g + i] = res[i] for i = 0 (always in range) and i = 1 (if col + 1 < N) *)
+Ltac store0 HWc HLc Hcol :=
+  rewrite Z.add_0_r, Z_ltb_nat;
+  match goal with |- context [(?c <? ?n)%nat] => destruct (Nat.ltb_spec c n) as [_|?]; [|lia] end; rs;
+  rewrite py_nth_0; cbn [nthP nth_res nth_error ret_res]; rs;
+  rewrite py_nth_colsof by exact Hcol; rs;
+  rewrite row_div3;
+  match goal with |- context [2 * Z.of_nat ?g + 0] =>
+    replace (2 * Z.of_nat g + 0) with (Z.of_nat (2 * g)) by lia end;
+  rewrite py_set_col_of by lia; rs;
+  rewrite py_set_colsof_upd2 by (try lia; apply (widths_nth _ _ _ HWc); lia); rs.
+
 Theorem gen_add_mul_wallace_eq a0 b0 be : peq (gen_add_mul_wallace a0 b0 be) (add_mul_wallace a0 b0 be).
 Proof.
   unfold gen_add_mul_wallace, add_mul_wallace. intros fresh s. cbv zeta.
@@ -60,5 +130,71 @@ Proof.
   destruct (Nat.eqb_spec (n + m) 0) as [HN0|HN0].
   { rewrite HN0, colsof_0. destruct m as [|m']; [|lia]. cbn [py_while_m]. rs. reflexivity. }
   rewrite HL.
+  assert (HN1 : (1 <= n + m)%nat) by lia.
+  remember (n + m)%nat as NN eqn:HNN.
+  rewrite run_bind.
+  rewrite (wal_while_eq fresh NN); [ | exact HN1 | | | split; assumption ].
+  2:{ (* the condition *)
+      intros R st. cbv beta. rs. rewrite py_nth_colsof_0 by exact HN1. rs.
+      rewrite col_of_length, Z_of_nat_eqb_2. reflexivity. }
+  2:{ (* one pass *)
+      intros R st [HWR HGR]. cbv beta.
+      rewrite (wallace_round_groups R fresh st).
+      rs.
+      rewrite (mapP_const fresh _ (py_mul [PLACEHOLDER_STR] (2 * (Z.of_nat (length R) / 3)))).
+      2:{ intros st'. rs. rewrite py_nth_colsof_0 by exact HN1. rs. rewrite col_of_length. reflexivity. }
+      rewrite py_range_0_length, two_len_div3, py_mul_single.
+      change Cirbo.Generated.ArithTables.PLACEHOLDER_STR with Cirbo.Model.ArithMul.PLACEHOLDER_STR.
+      rewrite <- colsof_nones.
+      rs. rewrite !py_nth_colsof_0 by exact HN1. rs. rewrite !col_of_length.
+      rewrite len_sub_mod3, py_range_step3.
+      assert (HGL : (3 * (length R / 3) <= length R)%nat) by (apply Nat.mul_div_le; lia).
+      rewrite (groups_fold_eq fresh NN _ R (length R / 3) HN1 HWR HGL).
+      2:{ (* one group *)
+          intros g Rg sg Hg HWg HLg Hr1 Hr2. cbv beta. rewrite run_bind.
+          rewrite (group_cols_eq fresh NN g _ (nth (3 * g) R []) (nth (3 * g + 1) R []) (nth (3 * g + 2) R []));
+            [ | apply (widths_nth _ _ _ HWR); lia | apply (widths_nth _ _ _ HWR); lia | apply (widths_nth _ _ _ HWR); lia
+              | | exact HWg | lia | exact Hr1 | exact Hr2 ].
+          - destruct (run fresh (wallace_group (nth (3 * g) R []) (nth (3 * g + 1) R []) (nth (3 * g + 2) R [])) sg)
+              as [[sc s2]|e]; rs; reflexivity.
+          - (* one column *)
+            intros Rc col sc Hcol HWc HLc Hn1c Hn2c. cbv beta.
+            assert (H3 : (3 * g + 2 < length R)%nat) by lia.
+            rewrite run_bind, py_range_3. cbn [foldP]. rs.
+            rdc HGR Hcol.
+            destruct (nth col (nth (3 * g) R []) None) as [lx|] eqn:Ex; cbn [is_some]; rs; rdc HGR Hcol;
+            (destruct (nth col (nth (3 * g + 1) R []) None) as [ly|] eqn:Ey; cbn [is_some]; rs; rdc HGR Hcol;
+             (destruct (nth col (nth (3 * g + 2) R []) None) as [lz|] eqn:Ez; cbn [is_some]; rs; rdc HGR Hcol));
+            cbn [app]; unfold wallace_col; cbn [cell_list app].
+            all: try rewrite len_gt0_cons.
+            (* no gate in this column *)
+            8:{ change (Z.of_nat (length (@nil string)) >? 0) with false. rs. cbn [fst snd].
+                rewrite grp_put_none by assumption. reflexivity. }
+            all: unfold py_add_sum_n_bits; rs;
+              change (@cons string) with (@cons label); change (@nil string) with (@nil label);
+              match goal with |- context [run ?fr (add_sum_n_bits (BEnum XAIG) false ?inp) ?st0] =>
+                destruct (run fr (add_sum_n_bits (BEnum XAIG) false inp) st0) as [[res s2]|e] eqn:ES; rs; [|reflexivity] end;
+              apply sum_small_spec in ES; cbv beta iota in ES.
+            (* one gate: it is passed on *)
+            4,6,7: destruct ES as [-> ->]; cbn [length fst snd];
+              change (py_range 0 (Z.of_nat 1)) with [0]; cbn [foldP]; rs;
+              store0 HWc HLc Hcol; rewrite grp_put_nocarry by exact Hn2c; reflexivity.
+            (* two or three gates: sum and carry *)
+            all: destruct ES as (sa & sb & -> & _ & _); cbn [length fst snd];
+              change (py_range 0 (Z.of_nat 2)) with [0; 1]; cbn [foldP]; rs;
+              store0 HWc HLc Hcol.
+            Show. all: admit. }
+      destruct (run fresh (round_groups (length R / 3) R) st) as [[out s2]|e] eqn:ER; rs; [|reflexivity].
+      rewrite !col_of_length, len_sub_mod3.
+      rewrite (tail_rows_eq fresh NN _ R (3 * (length R / 3))); [ | | exact HGL ].
+      2:{ intros r out' st' Hr. cbv beta. rewrite run_bind.
+          rewrite (tail_cols_eq fresh NN _ (nth r R [])).
+          - rs. reflexivity.
+          - intros cn col st'' Hcol Hcn. cbv beta. rs.
+            rewrite (py_nth_ok _ col []) by (apply (lt_len _ _ _ Hcn Hcol)). rs.
+            rewrite py_nth_colsof by exact Hcol. rs.
+            rewrite py_nth_col_of by lia. rs.
+            rewrite py_set_nat by (apply (lt_len _ _ _ Hcn Hcol)). rs. reflexivity. }
+      rs. reflexivity. }
   Show.
 Admitted.
